@@ -13,7 +13,7 @@ use vcore::sgr::{self, MColor, MStyle};
 use vcore::vt;
 use vcore::xml::{self, Element};
 
-const RULE: &str = "Inputs: UTF-8 texts from the C07 generator (text, whitespace/C0 controls, G-SGR sequences, non-SGR sequences) plus XML-special characters, entity look-alikes, wide / zero-width / combining characters, CRLF, lone CR, TAB, C1 characters; U+000C, U+FFFE, U+FFFF and DEL are replaced before rendering; x {VGA, Win10} x default fg/bg in {palette, indexed, RGB} x background on/off x min_width_px, the builder methods called in a generated order. Oracle: the output parses with an independent strict XML 1.0 parser (and, as a second opinion, every document of the run is fed to Python's expat); height == lines*18+20; text of the foreground row per line == visible text of the reference parser split at LF with one CR before the LF dropped (a CR inside a line may reach the XML reader as LF - written literally - or as CR - written as a character reference); every class has a rule; per character the declarations reached through the style sheet (fill, text-decoration-color, bold, italic, underline kinds, line-through, opacity) == the reference SGR style with invert applied against the configured defaults, RGB through the palette / xterm formula; background row fills == effective backgrounds in order. Non-trivial = at least 2 differently styled runs and at least one newline or XML-special character (distinct by case).";
+const RULE: &str = "Inputs: UTF-8 texts from the C07 generator (text, whitespace/C0 controls, G-SGR sequences, non-SGR sequences) plus XML-special characters, entity look-alikes, wide / zero-width / combining characters, CRLF, lone CR, TAB, C1 characters; U+000C, U+FFFE, U+FFFF and DEL are replaced before rendering; x {VGA, Win10} x default fg/bg in {palette, indexed, RGB} x background on/off x min_width_px, the builder methods called in a generated order. Oracle: the output parses with an independent strict XML 1.0 parser (and, as a second opinion, every document of the run is fed to Python's expat); height == lines*18+20; text of the foreground row per line == visible text of the reference parser split at LF with one CR before the LF dropped (a CR inside a line must come back as CR: written literally it would reach an XML reader as LF); every class has a rule; per character the declarations reached through the style sheet (fill, text-decoration-color, bold, italic, underline kinds, line-through, opacity) == the reference SGR style with invert applied against the configured defaults, RGB through the palette / xterm formula; background row fills == effective backgrounds in order. Non-trivial = at least 2 differently styled runs and at least one newline or XML-special character (distinct by case).";
 
 #[derive(Clone, Debug, Serialize, Deserialize)]
 struct Case {
@@ -270,18 +270,17 @@ fn check_doc(case: &Case, doc: &str) -> Result<bool, String> {
                 p.fill = Some(default_fill);
             }
             for ch in span.text().chars() {
-                // a carriage return inside a line reaches an XML reader as LF when it is written
-                // literally (end-of-line normalisation) and as CR when written as a character
-                // reference: both spellings are compared as LF
-                got.push((if ch == '\r' { '\n' } else { ch }, p.clone()));
+                // the text an XML reader recovers: a carriage return written literally reaches it
+                // as LF (end-of-line normalisation, XML 1.0 2.11) - then the recovered text is NOT
+                // the visible text -, one written as a character reference comes back as it is (F30)
+                got.push((ch, p.clone()));
             }
         }
         let mut want: Vec<(char, Pres)> = vec![];
         let mut want_bg: Vec<Option<Rgb>> = vec![];
         for (st, ch) in line {
             let (p, bg) = expected_pres(st, case, pal);
-            // (see above: CR and LF inside a line are compared alike)
-            want.push((if *ch == '\r' { '\n' } else { *ch }, p));
+            want.push((*ch, p));
             styles_seen.insert(format!("{:?}", st));
             // the renderer measures strings (control characters such as TAB count as one cell there)
             if unicode_width::UnicodeWidthStr::width(ch.encode_utf8(&mut [0u8; 4]) as &str) > 0 {
@@ -372,7 +371,7 @@ static DOCS: Mutex<Vec<(String, String)>> = Mutex::new(Vec::new());
 
 fn run(args: &Args, rep: &mut Report) {
     let tier = args.tier;
-    rep.assume("a CR inside a line is compared as LF whether it reaches the XML reader as LF (written literally, end-of-line normalisation) or as CR (written as a character reference)");
+    rep.assume("the text is recovered as an XML 1.0 reader recovers it: literal CR and CRLF are normalised to LF (2.11), character references are not");
     rep.assume("underline presence/kind is read from style rules that do not also set text-decoration-color (the colour rule itself carries text-decoration-line: underline)");
     rep.assume("the background row is compared cell by cell on lines of printable ASCII (one cell per character under any width measure); on other lines, where the cell count depends on the width tables, only the sequence of fills is compared");
     let cap = tier.pick(16_000usize, 20_000);
